@@ -15,6 +15,8 @@ import os as _os
 import posixpath
 import stat as _stat
 
+from simkit.core import Unsimulated
+
 
 class CrashNow(BaseException):
     """The simulated machine stopped: raised at the crash point and by every later
@@ -597,7 +599,7 @@ class SimOS:
         # that is not simulated would touch the real file system and is refused
         val = getattr(_os, name)
         if callable(val) and name not in ('strerror', 'fspath', 'fsencode', 'fsdecode', 'getpid', 'urandom'):
-            raise AttributeError('simfs: os.%s is not simulated' % name)
+            raise Unsimulated('os.%s is not simulated' % name)
         return val
 
     # -- calls --------------------------------------------------------------------------
